@@ -1,6 +1,7 @@
 """C03 — Work-steal queues neither lose nor duplicate items (structural clauses)."""
 from analysis.atomics import AtomicModel
 from rules.common import start
+from rules import wave3
 
 QUEUE_ADTS = ("common::work_steal::WorkStealQueue", "common::work_steal::LocalQueue",
               "common::ordered_work_steal::OrderedWorkStealQueue", "common::ordered_work_steal::OrderedLocalQueue")
@@ -43,4 +44,6 @@ def run(tier):
     queues.pair_rule(run, f, "C03-PAIR")
     queues.linear_rule(run, f, "C03-LINEAR")
     queues.self_steal_rule(run, f, "C03-NO-SELF-STEAL")
+    # clauses added for the wave-2 seeds (rules/wave2.py; DESIGN 12a)
+    wave3.container_api_rule(run, f, "C03-CONTAINER-API")
     return run.finish()
